@@ -11,10 +11,11 @@ namespace Qats.Props.C10
 open Qats.Ownership
 
 /-- For every combination of processing options, `get` never writes to a stored array in place and never returns one
-(the returned time array is the caller's own array exactly when resampling to a given array). -/
+— nor an array of the caller: when resampling to a given array the returned time array is a copy of it (F55: it used to be
+the caller's array itself, which `modify` then stored). -/
 theorem get_no_stored_mutation (o : Opts) :
     (runSteps start (getProgram o)).2 = [] ∧ (runSteps start (getProgram o)).1.x = .fresh ∧
-      (runSteps start (getProgram o)).1.t = (if o.resample = .array then .arg else .fresh) := by
+      (runSteps start (getProgram o)).1.t = .fresh := by
   rcases o with ⟨tw, rs, un, tp, fl, sm⟩
   cases tw <;> cases rs <;> cases un <;> cases tp <;> cases fl <;> cases sm <;> decide
 
